@@ -352,10 +352,11 @@ Lemma get_prop_snd l id prop now :
   | None => None
   end.
 Proof.
-  rewrite get_prop_pid. unfold st_get.
+  rewrite get_prop_pid.
+  pose proof (st_get_snd (l_state l) (prop_id id prop) now) as Hs.
+  destruct (st_get (l_state l) (prop_id id prop) now) as [s1 o]. cbn [snd] in Hs. subst o.
   destruct (alookup (prop_id id prop) (st_facts (l_state l))) as [f|]; [|reflexivity].
-  destruct (fact_expired f now); [|reflexivity].
-  destruct (st_rem (l_state l) (prop_id id prop) now) as [s1 [b|e|w|]]; reflexivity.
+  destruct (fact_expired f now); reflexivity.
 Qed.
 
 Definition parents_of_val (v : option json) : outcome (list string) :=
